@@ -1,6 +1,6 @@
 """C05 - every well-formed statement row becomes exactly one transaction, faithfully.
 
-Exhaustive: every table of <= K rows over a 29-kind row alphabet x 7 column layouts x 4 delimiter kinds x
+Exhaustive: every table of <= K rows over a 30-kind row alphabet x 7 column layouts x 4 delimiter kinds x
 header yes/no x 2 decimal conventions x 4 sign modes.  Tables are CELL tables; a serialiser renders them to
 file text and the expected transactions are computed from the cells (never by parsing the text).  The real
 resolve_source_format + parse_generic_csv read the file.  Transition oracle: parse(table) equals the
@@ -16,8 +16,8 @@ from mc.ref import table as T
 
 PROPERTY = "C05"
 LEVEL = "exploration"
-RULE = ("cases = every table of 1..K rows (K=2 quick, 3 thorough) over 29 row kinds (good; surrounding blanks; embedded comma/semicolon/tab; "
-        "embedded newline; doubled quote; Unicode; short by one and by two cells; long; blank line; all-empty cells; bad date; empty description; "
+RULE = ("cases = every table of 1..K rows (K=2 quick, 3 thorough) over 30 row kinds (good; surrounding blanks; embedded comma/semicolon/tab; "
+        "embedded newline; doubled quote; Unicode; Unicode line-separator characters inside a cell; short by one and by two cells; long; blank line; all-empty cells; bad date; empty description; "
         "amount cells abc, empty, 0, 0.00, -0, nan, inf, -Infinity, (12.50), $1,234.50, 1.234,50, EUR 7, 1.234, 12,500, -45.10), each run under "
         "7 layouts (skip column, location, extra field mid/last, description template with capture last, '%d %b %y' dates) x 4 delimiters (comma, ';', "
         "tab, regex:) x header/no header x decimal '.'/',' x sign {amount}/{-amount}/{+amount}/negate_amount override. non-trivial = table with "
@@ -36,7 +36,7 @@ def K(name, date=D1, desc="COFFEE SHOP", amt="12.50", shape="normal", pad=False)
 
 KINDS = [
     K("good"), K("blanks", D2, "TEA HOUSE", "7.25", pad=True), K("delims", D3, "ACME, INC; LTD\tX", "30.00"),
-    K("newline", D2, "LINE1\nLINE2", "5.00"), K("dquote", D2, 'SAY "HI"', "6.00"), K("unicode", D3, "Zoë's CAFÉ 日本", "8.00"),
+    K("newline", D2, "LINE1\nLINE2", "5.00"), K("dquote", D2, 'SAY "HI"', "6.00"), K("unicode", D3, "Zoë's CAFÉ 日本", "8.00"), K("unisep", D2, "LINE\u2028SEP\x0bVT\x85NEL\x1cFS", "4.00"),
     K("short1", shape="short1"), K("short2", shape="short2"), K("long", shape="long"), K("blankline", shape="blank"),
     K("allempty", shape="empty"), K("baddate", "13/45/2025"), K("emptydesc", D2, "   ", "9.00"),
     K("a-abc", amt="abc"), K("a-empty", amt=""), K("a-0", amt="0"), K("a-0.00", amt="0.00"), K("a-neg0", amt="-0"),
